@@ -370,7 +370,7 @@ fn reproduces(exe: &std::path::Path, path: &str, code: &str) -> bool {
 }
 
 fn tier_runs(prop: &str, tier: &str) -> u64 {
-    // sized from measured run rates on 16 cores: quick ~ 20-30 s, thorough ~ 8-10 min
+    // base counts, sized from measured run rates on 16 cores (base ~ 20-30 s, thorough ~ 8-15 min)
     let quick = match prop {
         "C01" => 10_000,
         "C02" => 120_000,
@@ -394,7 +394,10 @@ fn tier_runs(prop: &str, tier: &str) -> u64 {
         // partitions up to 8 packets; cut sweeps of packets up to 2000 bytes)
         "thorough" if prop == "C11" || prop == "C14" => quick * 8,
         "thorough" => quick * 20,
-        _ => quick,
+        // quick: the base count takes 20-40 s; the rarest seeded change of the sensitivity
+        // rounds showed in 1 of 150 runs, so there is room for 2-3x (still about a minute)
+        _ if prop == "C01" || prop == "C15" => quick * 3,
+        _ => quick * 2,
     }
 }
 
